@@ -3,7 +3,7 @@ import core
 LEVEL = 'exploration'
 RULE = ('table-driven generator over 16 result types (pointer, interface{}, error, custom interface, slice, map, chan, func, struct, array, int, int8, uint64, float64, string, named int64) '
         'x supplied values (untyped nil, typed nil, zero, concrete values for interface results, same-size different type, different-size type, layout-identical stand-ins) x Return/Returns/When().Return, '
-        'through real stubbed functions; plus multi-result nil error, unexported-type stand-ins as results and When arguments, nil When arguments; oracle = Go semantics of the delivered value '
+        'through real stubbed functions; plus multi-result nil error, unexported-type stand-ins as results and When arguments, nil When arguments; two functions of two same-named packages whose types print identically, stubbed in both orders; oracle = Go semantics of the delivered value '
         '(identity/memory image, dynamic type, typed zero, configuration-time rejection of size mismatches); distinct = (result type, expectation, API form) classes')
 
 
@@ -12,5 +12,8 @@ def run(ctx):
     files.update(core.vmon_files())
     files.update(core.dir_files('harness/c09', 'zzverif/c09'))
     files.update(core.dir_files('harness/c09/hid', 'zzverif/c09/hid'))
+    files.update(core.dir_files('harness/c09/p1/pb', 'zzverif/c09/p1/pb'))
+    files.update(core.dir_files('harness/c09/p2/pb', 'zzverif/c09/p2/pb'))
     b = ctx.build('c09', core.MODPATH + '/zzverif/c09', files)
-    ctx.children(b, 1, run='TestC09', timeout=600)
+    ctx.children(b, 1, run='TestC09$', timeout=600)
+    ctx.children(b, 1, run='TestC09SameName$', timeout=600, what='TestC09SameName')
